@@ -50,6 +50,9 @@ type Kind[K any] struct {
 	// non-storable insert is skipped and counted.
 	Storable func(m *ref.Map[K], k K) (bool, string)
 
+	// Len: bytes of the key as the caller holds it, where ID is not the key's own bytes (collation)
+	Len func(k K) int
+
 	HasRange bool
 	// RangeOK: false for the carved-out bound pairs.
 	RangeOK func(a, b K) (bool, string)
